@@ -106,6 +106,20 @@ def run_case(ck, desc):
         _close(ck, "facade.oil_viscosity", fl.oil_viscosity(p), [oil.viscosity_beggs_robinson(T, x, api, gg, gor) for x in p], desc, tol)
         _close(ck, "facade.pressure_bubblepoint", [fl.pressure_bubblepoint()], [oil.pressure_bubblepoint_Standing(T, api, gg, gor)], desc, tol)
         ck.count("facade_objects")
+        # the same object after its fields have been re-assigned (a parameter sweep that re-uses one
+        # Fluid): every method must follow the object's CURRENT temperature, gravities, GOR, salinity
+        T2, api2, gg2, gor2 = desc.get("oil2", [T + 37.0, api + 3.0, min(gg + 0.07, 1.3), gor * 1.4])
+        sal2 = desc.get("salinity2", max(0.5, 28.0 - sal))
+        fl.temperature, fl.api_gravity, fl.gas_specific_gravity, fl.solution_gor_initial, fl.salinity = T2, api2, gg2, gor2, sal2
+        _close(ck, "facade-after-reassignment.water_FVF", fl.water_FVF(p), [water.b_water_McCain(T2, x) for x in p], desc, tol)
+        _close(ck, "facade-after-reassignment.water_viscosity", fl.water_viscosity(p), [water.viscosity_water_McCain(T2, x, sal2) for x in p], desc, tol)
+        _close(ck, "facade-after-reassignment.oil_FVF", fl.oil_FVF(p), [oil.b_o_Standing(T2, x, api2, gg2, gor2) for x in p], desc, tol)
+        _close(ck, "facade-after-reassignment.oil_viscosity", fl.oil_viscosity(p), [oil.viscosity_beggs_robinson(T2, x, api2, gg2, gor2) for x in p], desc, tol)
+        _close(ck, "facade-after-reassignment.pressure_bubblepoint", [fl.pressure_bubblepoint()], [oil.pressure_bubblepoint_Standing(T2, api2, gg2, gor2)], desc, tol)
+        flg.temperature, flg.gas_specific_gravity = Tg + 25.0, gg2
+        _close(ck, "facade-after-reassignment.gas_FVF", flg.gas_FVF(p, Tpc, ppc), [gas.b_factor_DAK(Tg + 25.0, x, Tpc, ppc) for x in p], desc, tol)
+        _close(ck, "facade-after-reassignment.gas_viscosity", flg.gas_viscosity(p, Tpc, ppc), [gas.viscosity_Sutton(Tg + 25.0, x, Tpc, ppc, gg2) for x in p], desc, tol)
+        ck.count("facade_objects_reassigned")
         return len(p) >= 4 and sal > 0, {"pb": float(fl.pressure_bubblepoint())}
 
     comp = dict(desc["comp"])
